@@ -1,4 +1,5 @@
 import NLE.Proofs.LifeInv
+import NLE.Gen.Shape
 /-!
 # C19 — the promotion context lives exactly as long as the term
 -/
@@ -45,5 +46,10 @@ theorem cancelled_at_quiescent_points {x : Inst} {st : Nat} {il il2 : Bool} {tok
   simp only [List.any_eq_true, not_exists, not_and, Bool.and_eq_true, Bool.not_eq_true'] at hany
   have := hany c hc
   simpa using this hto
+
+/-- AST facts: `becomeLeader` derives a per-term context, runs the term's loops and the promotion callback under it, and
+    `becomeFollower` cancels it. -/
+theorem shape : Gen.termContextPerTerm = true ∧ Gen.termCancelledOnDemotion = true := by decide
+
 
 end NLE.Theorems.C19
